@@ -56,6 +56,8 @@ struct OpBase {
     template<class S> static bool may_execute(S, S, S) { return true; }
     template<class S> static bool nontrivial(S, S, S) { return true; }
     template<class S> static bool same(std::uint64_t e, std::uint64_t g) { return e == g; }
+    // per-tuple comparison flag computed by the model side (e.g. "the sign of a zero result is free"); see flagged ops
+    template<class S> static unsigned flag(S, S, S) { return 0; }
     template<class S> static const std::vector<S>& fills() { return default_fills<S>(); }
     static const bool lane_pass = true;
 };
@@ -109,7 +111,7 @@ struct DomainOf : DomainS<S> {
     Dom d;
     explicit DomainOf(const Dom& dd) : d(dd) {}
     std::uint64_t size() const { return d.size(); }
-    VX_NOINLINE void fill(std::uint64_t start, unsigned n, S* a, S* b, S* c) const {
+    __attribute__((noinline, target("avx2"), optimize("O3"))) void fill(std::uint64_t start, unsigned n, S* a, S* b, S* c) const {
         for (unsigned i = 0; i < n; ++i) d.get(start + i, a[i], b[i], c[i]);
     }
     std::string name() const { return d.name(); }
@@ -117,35 +119,49 @@ struct DomainOf : DomainS<S> {
 template<class S, class Dom>
 inline DomainOf<S, Dom> erase(const Dom& d) { return DomainOf<S, Dom>(d); }
 
-static const unsigned VX_BLK = 1024;
+static const unsigned VX_BLK = 512;
 
 template<class S>
 struct Buffers {
     S a[VX_BLK], b[VX_BLK], c[VX_BLK];
     std::uint64_t e[VX_BLK], g[VX_BLK];
     bool dom[VX_BLK], nt[VX_BLK];
+    unsigned char flag[VX_BLK];
 };
 
 template<class S>
 struct OpVT {
-    const char* name;
+    std::string name;
     int arity;
     bool lane_pass;
     unsigned W;
     void (*model_block)(Buffers<S>&, unsigned n);
     void (*impl_vec)(Buffers<S>&, unsigned off);
-    bool (*same)(std::uint64_t, std::uint64_t);
+    bool (*same)(std::uint64_t, std::uint64_t, unsigned);
 };
 
+// The reference side is compiled for SSE4.1 whatever the configuration under check selects (this CPU has it): libm's
+// ceil/floor/trunc/rint then expand to a single rounding instruction instead of a call, which makes exhaustive float passes affordable.
 template<class S, class Op>
-VX_NOINLINE void model_block_fn(Buffers<S>& B, unsigned n) {
+__attribute__((noinline, target("avx2"), optimize("O3"))) void model_block_fn(Buffers<S>& B, unsigned n) {
     for (unsigned i = 0; i < n; ++i) {
         if (!Op::may_execute(B.a[i], B.b[i], B.c[i])) { B.a[i] = S(1); B.b[i] = S(1); B.c[i] = S(1); B.dom[i] = false; B.e[i] = 0; B.nt[i] = false; continue; }
         B.dom[i] = Op::in_domain(B.a[i], B.b[i], B.c[i]);
         B.e[i] = B.dom[i] ? Op::model(B.a[i], B.b[i], B.c[i]) : 0;
         B.nt[i] = B.dom[i] && Op::nontrivial(B.a[i], B.b[i], B.c[i]);
+        B.flag[i] = (unsigned char)(B.dom[i] ? Op::flag(B.a[i], B.b[i], B.c[i]) : 0);
     }
 }
+
+template<class S, class Op, class = void>
+struct same_sel { static bool f(std::uint64_t e, std::uint64_t g, unsigned) { return Op::template same<S>(e, g); } };
+template<class S, class Op>
+struct same_sel<S, Op, typename std::enable_if<(sizeof(Op::template same_f<S>(0, 0, 0u)) > 0)>::type> {
+    static bool f(std::uint64_t e, std::uint64_t g, unsigned fl) { return Op::template same_f<S>(e, g, fl); }
+};
+
+// appended to every operation name of a pass (e.g. "@upward" while a rounding mode is in force)
+inline std::string& name_suffix() { static std::string s; return s; }
 
 template<class V, class Op>
 VX_NOINLINE void impl_vec_fn(Buffers<typename V::scalar>& B, unsigned off) {
@@ -195,26 +211,30 @@ struct RunnerS {
         return s;
     }
 
-    VX_NOINLINE void compare_block(unsigned n, bool count_nt, std::uint64_t salt, const char* phase) {
+    __attribute__((noinline, target("avx2"), optimize("O3"))) void compare_block(unsigned n, bool count_nt, std::uint64_t salt, const char* phase) {
         Stat& s = *st;
-        std::uint64_t ev = s.evals, dg = s.digest, ntc = 0;
-        const std::uint64_t ev0 = ev;
+        // pass 1 (branch-free, vectorisable): counts and the number of raw mismatches
+        std::uint64_t ev = 0, ntc = 0, bad = 0, dg = s.digest;
         for (unsigned i = 0; i < n; ++i) {
-            if (!B.dom[i]) continue;
-            ++ev;
+            ev += B.dom[i];
             ntc += B.nt[i];
-            dg += (B.g[i] + 1) * (2 * ev + 1);
-            if (B.e[i] != B.g[i] && !vt.same(B.e[i], B.g[i])) {
-                ++s.fails;
-                std::uint64_t h = tuple_hash(vt.arity, B.a[i], B.b[i], B.c[i]);
-                if (salt) h = hcomb(h, salt);
-                s.fp += h;
-                if (s.witnesses.size() < 4) add_witness(s, witness_json(i, phase));
-            }
+            bad += (B.e[i] != B.g[i]) & B.dom[i];
         }
-        s.evals = ev;
+        for (unsigned i = 0; i < n; ++i) dg = ((dg << 1) | (dg >> 63)) ^ (B.dom[i] ? B.g[i] : 0);
+        s.evals += ev;
         s.digest = dg;
-        if (count_nt) { s.nontrivial += ntc; s.distinct += ev - ev0; }
+        if (count_nt) { s.nontrivial += ntc; s.distinct += ev; }
+        if (!bad) return;
+        // pass 2: only when something differs bit-wise; the operation's comparison mode decides
+        for (unsigned i = 0; i < n; ++i) {
+            if (!B.dom[i] || B.e[i] == B.g[i]) continue;
+            if (vt.same(B.e[i], B.g[i], B.flag[i])) continue;
+            ++s.fails;
+            std::uint64_t h = tuple_hash(vt.arity, B.a[i], B.b[i], B.c[i]);
+            if (salt) h = hcomb(h, salt);
+            s.fp += h;
+            if (s.witnesses.size() < 4) add_witness(s, witness_json(i, phase));
+        }
     }
 
     void phase1(const DomainS<S>& d) {
@@ -326,7 +346,7 @@ inline RunnerS<S>& runner() {
 template<class V, class Op, bool HAS = has_op<Op, V>::value>
 struct Explore {
     static void run(const DomainS<typename V::scalar>&, const std::vector<typename V::scalar>*) {
-        reg().notes.push_back("not provided: " + vname<V>() + ":" + Op::name());
+        reg().notes.push_back("not provided: " + vname<V>() + ":" + Op::name() + name_suffix());
     }
 };
 
@@ -335,13 +355,13 @@ struct Explore<V, Op, true> {
     static void run(const DomainS<typename V::scalar>& dom, const std::vector<typename V::scalar>* K) {
         typedef typename V::scalar S;
         RunnerS<S>& r = runner<S>();
-        r.vt.name = Op::name();
+        r.vt.name = std::string(Op::name()) + name_suffix();
         r.vt.arity = Op::arity;
         r.vt.lane_pass = Op::lane_pass;
         r.vt.W = V::width;
         r.vt.model_block = &model_block_fn<S, Op>;
         r.vt.impl_vec = &impl_vec_fn<V, Op>;
-        r.vt.same = &Op::template same<S>;
+        r.vt.same = &same_sel<S, Op>::f;
         r.run(vname<V>(), dom, K, Op::template fills<S>());
     }
 };
